@@ -47,6 +47,7 @@ def run(ctx):
     from fast_ticc import data_preparation as dp
     rng = np.random.default_rng(ctx.seed)
     ctx.proof_layer(allowed_axioms=(), coq_deps=["Corr/RunStacking"])
+    core.note_drift(ctx, ANCHORS)
     cov = core.LineCoverage()
     with cov:
         # ---- stream 1: single series shapes
